@@ -23,6 +23,8 @@ REGISTRY = {
     "C08": ("auverif.props.c08", "run"),
     "C05": ("auverif.props.c05", "run"),
     "C06": ("auverif.props.c06", "run"),
+    "C07": ("auverif.props.c07", "run"),
+    "C10": ("auverif.props.c10", "run"),
 }
 
 
